@@ -60,7 +60,12 @@ def idiom_site(ctx: Ctx, fr: Frame, depth: int = 0):
     if len(calls) == 1:
         return calls[0], fr
     if not calls and depth < 3:
-        rets = ctx.I.return_exprs(f)
+        rets = list(ctx.I.return_exprs(f))
+        if len(rets) == 1 and isinstance(rets[0], ast.Name):
+            # `handler: <annotation> = helper(...)` / `return handler`
+            la = ctx.I.local_assigns(f).get(rets[0].id) or []
+            if len(la) == 1 and isinstance(la[0], ast.Call):
+                rets = [la[0]]
         if len(rets) == 1 and isinstance(rets[0], ast.Call):
             ts = [t for t in ctx.I.resolve_call(rets[0], fr) if t.kind == "repo" and t.frame is not None]
             if len(ts) == 1:
